@@ -46,6 +46,7 @@ enum Pos {
     Closure { k: usize },
     KeepArms,
     Attr,
+    LetType { name: String },
 }
 
 fn parse_sel(name: &str, sel: &str) -> Pos {
@@ -77,6 +78,7 @@ fn parse_sel(name: &str, sel: &str) -> Pos {
         "@end" => Pos::End,
         "@attr" => Pos::Attr,
         "@keep-arms" => Pos::KeepArms,
+        "@lettype" => Pos::LetType { name: w.get(1).cloned().unwrap_or_else(|| bad()) },
         "@loop" => {
             let k = w.get(1).and_then(|s| s.parse().ok()).unwrap_or_else(|| bad());
             let part = match w.get(2).map(|s| s.as_str()) {
@@ -318,6 +320,44 @@ pub fn emit_fn(owner: Option<&str>, name: &str, mut f: syn::ItemFn, contracts: &
     let poss: Vec<Pos> = blocks.iter().map(|b| parse_sel(name, &b.selector)).collect();
     f.attrs.clear();
     f.vis = syn::parse_quote!(pub);
+    // R24: by-value `mut self` / `mut x: T` parameters (unsupported by the verifier) -> immutable parameter + `let mut` rebinding
+    {
+        let mut pre: Vec<syn::Stmt> = vec![];
+        let mut rename_self = false;
+        for a in f.sig.inputs.iter_mut() {
+            match a {
+                syn::FnArg::Receiver(r) if r.reference.is_none() && r.mutability.is_some() => {
+                    r.mutability = None;
+                    rename_self = true;
+                }
+                syn::FnArg::Typed(pt) => {
+                    if let syn::Pat::Ident(pi) = &mut *pt.pat {
+                        if pi.mutability.is_some() && pi.by_ref.is_none() {
+                            pi.mutability = None;
+                            let id = pi.ident.clone();
+                            pre.push(syn::parse_quote!(let mut #id = #id;));
+                        }
+                    }
+                }
+                _ => {}
+            }
+        }
+        if rename_self {
+            struct SelfRenamer;
+            impl VisitMut for SelfRenamer {
+                fn visit_ident_mut(&mut self, i: &mut syn::Ident) {
+                    if i == "self" { *i = syn::Ident::new("vx_self", i.span()); }
+                }
+                fn visit_macro_mut(&mut self, _m: &mut syn::Macro) {}
+            }
+            SelfRenamer.visit_block_mut(&mut f.block);
+            pre.insert(0, syn::parse_quote!(let mut vx_self = self;));
+        }
+        if !pre.is_empty() {
+            ctx.used("R24");
+            for (i, st) in pre.into_iter().enumerate() { f.block.stmts.insert(i, st); }
+        }
+    }
     ctx.counter = 0; // hoisted-bound names vx_n<k> are numbered per function
     Rules { ctx }.visit_item_fn_mut(&mut f);
 
@@ -358,6 +398,33 @@ pub fn emit_fn(owner: Option<&str>, name: &str, mut f: syn::ItemFn, contracts: &
     let mut masked: Vec<String> = vec![];
     let mut kept: Vec<String> = vec![];
 
+    // R27: type ascription on a local whose type inference needs the (woven) proof text: `let x = e` -> `let x: T = e`
+    for (i, p) in poss.iter().enumerate() {
+        if let Pos::LetType { name: lname } = p {
+            struct LetTyper { name: String, ty: syn::Type, done: bool }
+            impl VisitMut for LetTyper {
+                fn visit_local_mut(&mut self, l: &mut syn::Local) {
+                    if !self.done {
+                        if let syn::Pat::Ident(pi) = &l.pat {
+                            if pi.ident == self.name {
+                                let pat = l.pat.clone();
+                                let ty = self.ty.clone();
+                                l.pat = syn::Pat::Type(syn::PatType { attrs: vec![], pat: Box::new(pat), colon_token: Default::default(), ty: Box::new(ty) });
+                                self.done = true;
+                            }
+                        }
+                    }
+                    syn::visit_mut::visit_local_mut(self, l);
+                }
+            }
+            let ty: syn::Type = syn::parse_str(blocks[i].body.trim()).unwrap_or_else(|e| lost(&format!("{}: @lettype {}: bad type: {}", name, lname, e)));
+            let mut lt = LetTyper { name: lname.clone(), ty, done: false };
+            lt.visit_block_mut(&mut f.block);
+            if !lt.done { lost(&format!("{}: @lettype {}: no such local", name, lname)); }
+            blocks[i].used = true;
+            ctx.used("R27");
+        }
+    }
     // arm masking
     for (i, p) in poss.iter().enumerate() {
         if let Pos::KeepArms = p {
